@@ -25,13 +25,15 @@ type Machine struct {
 
 	ValidateFirst, ValidateEvery int
 
-	live    *Sim
-	owner   *Lazy
-	cache   map[string]*SimState
-	fifo    []string
-	cap     int
-	count   int
-	Stats   struct{ Restores, Replays, OpsRun, Validations int }
+	live  *Sim
+	owner *Lazy
+	cache map[string]*SimState
+	fifo  []string
+	cap   int
+	count int
+	Stats struct{ Restores, Replays, OpsRun, Validations int }
+	// Nondet collects histories whose plain re-execution is not reproducible (see Lazy.Sim)
+	Nondet  []string
 	noCache bool
 }
 
@@ -127,8 +129,27 @@ func (l *Lazy) Sim() *Sim {
 		l.run()
 		if validate {
 			if got := m.live.FullDump(); got != want {
-				fmt.Fprintf(os.Stderr, "CHECK-ERROR: dvsim: restored state differs from plain re-execution after %v (restored prefix %d)\n--- re-executed\n%s--- restored\n%s", l.Hist, k, want, got)
-				os.Exit(3)
+				// Either the restore shortcut is wrong, or the code under test is not a function of
+				// its history (Go map iteration order leaking into the tables). Decide by plain
+				// re-execution alone: if two plain re-executions of the same history differ, it is
+				// the latter, which the harness reports as a finding; otherwise the check is broken.
+				nondet := false
+				for try := 0; try < 80 && !nondet; try++ { // a two-entry Go map iterates in the other order with probability 1/8
+					ref := m.fresh()
+					for _, op := range l.Hist {
+						m.Apply(ref, op)
+					}
+					nondet = ref.FullDump() != want
+				}
+				if !nondet {
+					fmt.Fprintf(os.Stderr, "CHECK-ERROR: dvsim: restored state differs from plain re-execution after %v (restored prefix %d)\n--- re-executed\n%s--- restored\n%s", l.Hist, k, want, got)
+					os.Exit(3)
+				}
+				m.Nondet = append(m.Nondet, fmt.Sprintf("re-executing the history %v twice from fresh routers gives different router states", l.Hist))
+				// the plain re-executions clobbered clock and queue: put the live state back
+				m.live.Restore(st)
+				l.pos = k
+				l.run()
 			}
 		}
 		return m.live
